@@ -1272,6 +1272,9 @@ pub fn work_list(cfg: &RunCfg) -> Option<WorkList> {
             for w in corpus::WITNESSES.iter() {
                 inject_items(w, "witness", None, &mut fixed);
             }
+            for w in ["(?i)\u{1c5}", "(?i)\u{1c5}a", "(?i:\u{1c8})b", "(?i)a\u{17f}", "(?i)[\u{1c5}]b"].iter() {
+                inject_items(w, "plain", None, &mut fixed);
+            }
             for w in ["ab|c", "a(b|c)d", "(a|ab)(c|bcd)", "a*b", "(a+)(b+)", "[ab]+c?", "a{2}b", "(?:a|b)*c", "^a$", "a.b"].iter() {
                 inject_items(w, "plain", None, &mut fixed);
             }
@@ -1320,6 +1323,28 @@ pub fn work_list(cfg: &RunCfg) -> Option<WorkList> {
             }
             for w in ["a*+b", "(?>a*)b", "(a)(b)\\2\\1", "\\Aab\\z", "^ab$", "a b#c", "(?i:a)b", "(?i:ab)c", "é+", "(a)\\1+", "(?<=a)b", "a++", "(a|b)?+c"].iter() {
                 respell_items(w, "plain", None, &mut fixed);
+            }
+            // documented-equivalent spellings given as explicit pairs (shorthand escapes inside
+            // and outside classes, escapes for one character, reference spellings); their trees
+            // may differ (class text), their behaviour may not
+            let pairs: [(&str, &str); 30] = [
+                ("[x\\H]", "[x[^0-9A-Fa-f]]"), ("[^\\H]", "[0-9A-Fa-f]"), ("[x\\h]", "[x0-9A-Fa-f]"), ("\\h", "[0-9A-Fa-f]"), ("\\H", "[^0-9A-Fa-f]"), ("[^\\h]", "[^0-9A-Fa-f]"),
+                ("[\\x41-\\x43]", "[A-C]"), ("[a\\x2Dc]", "[a\\-c]"), ("\\x2E", "\\."), ("\\x2A", "\\*"), ("\\x7C", "\\|"), ("[\\x5D]", "[\\]]"), ("[\\x5E]", "[\\^]"),
+                ("\\e", "\\x1B"), ("\\a", "\\x07"), ("\\f", "\\x0C"), ("\\v", "\\x0B"), ("\\t", "\\x09"), ("\\n", "\\x0A"), ("\\r", "\\x0D"),
+                ("\\u00e9", "\u{e9}"), ("\\U000000e9", "\u{e9}"), ("\\x{e9}", "\u{e9}"), ("[\\d]", "\\d"), ("[^\\D]", "\\d"), ("[\\w]", "\\w"),
+                ("(?<n>a)\\k<n>", "(a)\\1"), ("(?P<n>a)(?P=n)", "(a)\\1"), ("(a)\\k<1>", "(a)\\1"), ("(a)\\k<-1>", "(a)\\1"),
+            ];
+            for (a, b) in pairs.iter() {
+                for host in ["X", "X(?=)", "aX+b", "(?<=X)b"].iter() {
+                    let (pa, pb) = (host.replace("X", a), host.replace("X", b));
+                    if Expr::parse_tree(&pa).is_err() && Expr::parse_tree(&pb).is_err() {
+                        continue;
+                    }
+                    let mut it = Item::new(&pa, "explicit-pair");
+                    it.variant = Some(pb);
+                    it.note = "explicit-pair".to_string();
+                    fixed.push(it);
+                }
             }
             let ex = corpus::exhaustive(&ATOMS_SMALL, &OPS_QUICK, 3);
             for p in ex {
@@ -1383,6 +1408,14 @@ pub fn work_list(cfg: &RunCfg) -> Option<WorkList> {
                 let mut it = Item::new(w, "wide-cut");
                 it.n_extra = 0;
                 fixed.push(it);
+            }
+            for w in corpus::many_groups().iter() {
+                let mut it = Item::new(w, "many-groups");
+                it.n_extra = 0;
+                fixed.push(it);
+            }
+            for w in corpus::bounded_repeats().iter() {
+                fixed.push(Item::new(w, "bounded-repeats"));
             }
             let fillers = corpus::exhaustive(&ATOMS_SMALL, &OPS_QUICK, 2);
             for ctx in corpus::contexts(corpus::FEATS_ALL) {
